@@ -66,3 +66,11 @@ VARIANTS += [
     M('C07', 'distinct-values-filtered-by-truth', E(DR, "        result = self.execute_all(sql)\n        return [x[0] for x in result]", "        result = self.execute_all(sql)\n        return [x[0] for x in result if x[0]]"),
       rule='C07-DISTINCT', key='get_database_unique_values'),
 ]
+
+VARIANTS += [
+    M('C07', 'null-count-assumed-zero-on-sqlite', E(DR, "        sql = ('SELECT COUNT(*) FROM %s WHERE %s IS NULL'\n               % (tablename, self.quoted(colname)))\n        return self.execute_scalar(sql)",
+                                                     "        sql = ('SELECT COUNT(*) FROM %s WHERE %s IS NULL'\n               % (tablename, self.quoted(colname)))\n        if self.dbtype == 'sqlite' and colname.lower() == 'id':\n            return 0\n        return self.execute_scalar(sql)"),
+      rule='C07-COUNTED', key='get_database_nnull'),
+    M('C07', 'date-bound-written-to-the-second', E('tdda/constraints/base.py', "str(self.value)", "self.value.isoformat(sep=' ', timespec='seconds') if isinstance(self.value, datetime.datetime) else str(self.value)"),
+      rule='C07-WRITTEN', key='to_dict_value'),
+]
